@@ -1,2 +1,322 @@
-(* Props/C03.v — under construction *)
-From SV Require Import Base.Prelude.
+(* Props/C03.v — property C03: fermionic operations follow graded (Grassmann)
+   tensor semantics.  Statements only; proofs live in Proofs/GradedProofs.v and
+   Proofs/FermiProofs.v.
+
+   Vocabulary (Proofs/FermiProofs.v):
+     vblock x s          the block of `f_value x` (pending signs multiplied in) stored at sector s
+     sgn b t / osgn b o  multiply a block / an optional block by (-1)^b;  rsgn b v the same for a scalar
+     inv_parity par p    parity of the number of odd-odd inversions of the arrangement p
+     signed_transpose X p sg   the abelian array X transposed by p, the block of sector s multiplied by (-1)^(sg s)
+     ketbra_a a aa s     parity of the number of contracted positions k with odd charge s[aa_k] whose a-leg is NOT dual
+                         ("meets as ket-then-bra"); ketbra_b b ab s: the same counted on b's dual legs
+     tdot_opA / tdot_opB the two operands that reach the abelian contraction
+     fermi_finish        global sign and odd-position labels from `resolve_oddpos`
+   Ring laws are explicit: NegLaws R (negation is an involutive additive map
+   compatible with multiplication), SumLaws R (C02). *)
+From SV Require Import Base.Prelude Base.Sym Base.Tensor Gen.PhasePerm Model.Sectors Model.Array Model.Arith
+  Model.Fermi Model.Graded Model.Wf Proofs.GradedProofs Proofs.Tdot Proofs.FermiProofs.
+From Coq Require Import Permutation.
+Local Open Scope nat_scope.
+
+(* ---- 1. the generated Koszul-sign routine ---- *)
+(* For EVERY parity list and EVERY permutation of 0..n-1 the translated
+   `calc_phase_permutation` returns -1 exactly when the number of odd-odd
+   inversions is odd. *)
+Theorem C03_phase_perm_is_koszul :
+  forall (par perm : list Z) (n : Z), Permutation perm (zrange n) ->
+  calc_phase_permutation par (Some perm) = phase_of (inv_parity par perm).
+Proof. exact phase_perm_is_koszul. Qed.
+
+(* `perm=None` is the full reversal. *)
+Theorem C03_phase_perm_none_is_reversal :
+  forall par : list Z, (forall p, In p par -> p = 0 \/ p = 1)%Z ->
+  calc_phase_permutation par None
+  = calc_phase_permutation par (Some (rev (zrange (Z.of_nat (length par))))).
+Proof. exact phase_perm_none_is_reversal. Qed.
+
+(* The inversion parity is the Koszul sign K between the permuted and the
+   identity arrangement, and it composes: arranging by q and then re-arranging
+   the result by r costs the product of the two signs. *)
+Theorem C03_inv_parity_is_K :
+  forall (par perm : list Z) (n : Z), Permutation perm (zrange n) ->
+  inv_parity par perm = K Z.eqb (oddZ par) perm (zrange n).
+Proof. exact inv_parity_is_K. Qed.
+
+Theorem C03_inv_parity_comp :
+  forall (par q r : list Z) (N : nat),
+  Permutation q (zrange (Z.of_nat N)) -> Permutation r (zrange (Z.of_nat N)) ->
+  inv_parity par (map (nthZ q) r) = xorb (inv_parity par q) (inv_parity (map (nthZ par) q) r).
+Proof. exact inv_parity_comp. Qed.
+
+Theorem C03_ZRing_neg_laws : NegLaws ZRing.
+Proof. exact ZRing_neg_laws. Qed.
+
+Theorem C03_GRing_neg_laws : NegLaws GRing.
+Proof. exact GRing_neg_laws. Qed.
+
+(* ---- 2. transpose and the phase operations ---- *)
+Theorem C03_transpose_sectors :
+  forall (G : Symmetry) (R : Ring) (x : farray G R) (axes : list nat) (ph : bool),
+  fsectors G R (f_transpose G R x axes ph) = map (fun s => permuted (ident G) s axes) (fsectors G R x).
+Proof. exact transpose_sectors. Qed.
+
+(* Transposing multiplies each block (hence each element) by the sign of the
+   permutation restricted to its odd indices. *)
+Theorem C03_transpose_value :
+  forall (G : Symmetry) (R : Ring), NegLaws R ->
+  (forall a b : C G, ceqb G a b = true <-> a = b) ->
+  forall (x : farray G R) (axes : list nat) (s : list (C G)),
+  NoDup (fsectors G R x) -> sectors_len G R x ->
+  Permutation axes (seq 0 (ndim G R (fbase G R x))) -> length s = ndim G R (fbase G R x) ->
+  vblock G R (f_transpose G R x axes true) (permuted (ident G) s axes)
+  = option_map (fun t => sgn R (inv_parity (par_of G s) (map Z.of_nat axes)) (ttranspose R t axes)) (vblock G R x s).
+Proof. exact transpose_value. Qed.
+
+Theorem C03_transpose_nophase_value :
+  forall (G : Symmetry) (R : Ring), NegLaws R ->
+  (forall a b : C G, ceqb G a b = true <-> a = b) ->
+  forall (x : farray G R) (axes : list nat) (s : list (C G)),
+  sectors_len G R x -> (forall t, In t (fphases G R x) -> length t = ndim G R (fbase G R x)) ->
+  Permutation axes (seq 0 (ndim G R (fbase G R x))) -> length s = ndim G R (fbase G R x) ->
+  vblock G R (f_transpose G R x axes false) (permuted (ident G) s axes)
+  = option_map (fun t => ttranspose R t axes) (vblock G R x s).
+Proof. exact transpose_nophase_value. Qed.
+
+Theorem C03_phase_flip_value :
+  forall (G : Symmetry) (R : Ring), NegLaws R ->
+  (forall a b : C G, ceqb G a b = true <-> a = b) ->
+  forall (x : farray G R) (axs : list nat) (s : list (C G)),
+  NoDup (fsectors G R x) ->
+  vblock G R (f_phase_flip G R x axs) s = osgn R (count_odd G s axs) (vblock G R x s).
+Proof. exact phase_flip_value. Qed.
+
+Theorem C03_phase_transpose_value :
+  forall (G : Symmetry) (R : Ring), NegLaws R ->
+  (forall a b : C G, ceqb G a b = true <-> a = b) ->
+  forall (x : farray G R) (p : list nat) (n : nat) (s : list (C G)),
+  NoDup (fsectors G R x) -> Permutation p (seq 0 n) ->
+  vblock G R (f_phase_transpose G R x (Some p)) s
+  = osgn R (inv_parity (par_of G s) (map Z.of_nat p)) (vblock G R x s).
+Proof. exact phase_transpose_value. Qed.
+
+(* ---- 3. contraction ---- *)
+(* All modes, both branches of `a.size <= b.size`: the fermionic contraction is
+   the ABELIAN contraction of two sign-adjusted transposed operands, followed by
+   the global sign / label resolution.  `tdot_spec` is
+     fermi_finish a b (a_tensordot (tdot_opA fl a la aa) (tdot_opB (negb fl) b ab rb) (last ncon, first ncon) mode)
+   with fl = `tdot_flip_a a b aa ab` the size test. *)
+Theorem C03_tensordot_sign_formula :
+  forall (G : Symmetry) (R : Ring), NegLaws R ->
+  (forall a b : C G, ceqb G a b = true <-> a = b) ->
+  forall (a b : farray G R) (axes : nat + (list Z * list Z)) (mode : tmode) (aa ab : list nat),
+  parse_axes (ndim G R (fbase G R a)) (ndim G R (fbase G R b)) axes = Some (aa, ab) ->
+  NoDup (fsectors G R a) -> sectors_len G R a -> NoDup (fsectors G R b) -> sectors_len G R b ->
+  NoDup aa -> (forall i, In i aa -> i < ndim G R (fbase G R a)) ->
+  NoDup ab -> (forall i, In i ab -> i < ndim G R (fbase G R b)) ->
+  f_tensordot G R a b axes mode = tdot_spec G R a b aa ab mode.
+Proof. exact tensordot_sign_formula. Qed.
+
+(* The blocks of the two operands: the graded transposition of a to
+   (free ++ contracted), of b to (REVERSED contracted ++ free), and — on the
+   operand chosen by the size test — one sign per odd contracted index that
+   meets as ket-then-bra. *)
+Theorem C03_tdot_opA_block :
+  forall (G : Symmetry) (R : Ring),
+  (forall a b : C G, ceqb G a b = true <-> a = b) ->
+  forall (fl : bool) (a : farray G R) (aa : list nat) (s : list (C G)),
+  let na := ndim G R (fbase G R a) in
+  let la := rest_axes na aa in
+  sectors_len G R a -> NoDup aa -> (forall i, In i aa -> i < na) -> length s = na ->
+  lookup (list_eqb (ceqb G)) (permuted (ident G) s (la ++ aa)) (blocks G R (tdot_opA G R fl a la aa))
+  = option_map (fun t => sgn R (xorb (inv_parity (par_of G s) (map Z.of_nat (la ++ aa))) (fl && ketbra_a G R a aa s))
+                             (ttranspose R t (la ++ aa))) (vblock G R a s).
+Proof. exact tdot_opA_block. Qed.
+
+Theorem C03_tdot_opB_block :
+  forall (G : Symmetry) (R : Ring),
+  (forall a b : C G, ceqb G a b = true <-> a = b) ->
+  forall (fl : bool) (b : farray G R) (ab : list nat) (s : list (C G)),
+  let nb := ndim G R (fbase G R b) in
+  let rb := rest_axes nb ab in
+  sectors_len G R b -> NoDup ab -> (forall i, In i ab -> i < nb) -> length s = nb ->
+  lookup (list_eqb (ceqb G)) (permuted (ident G) s (ab ++ rb)) (blocks G R (tdot_opB G R fl b ab rb))
+  = option_map (fun t => sgn R (xorb (inv_parity (par_of G s) (map Z.of_nat (rev ab ++ rb))) (fl && ketbra_b G R b ab s))
+                             (ttranspose R t (ab ++ rb))) (vblock G R b s).
+Proof. exact tdot_opB_block. Qed.
+
+(* Branch independence: when contracted legs have opposite directions, the list
+   of contributing (sector, block product) pairs — only ALIGNED sectors
+   contribute — is literally the same whichever operand carries the ket-bra signs. *)
+Theorem C03_tensordot_branch_independent :
+  forall (G : Symmetry) (R : Ring), NegLaws R ->
+  (forall a b : C G, ceqb G a b = true <-> a = b) ->
+  forall (a b : farray G R) (la aa ab rb la' rb' : list nat),
+  opposite_dirs G R a b aa ab ->
+  tdot_pairs G R (tdot_opA G R true a la aa) (tdot_opB G R false b ab rb) la' (seq (length la) (length aa)) (seq 0 (length ab)) rb'
+  = tdot_pairs G R (tdot_opA G R false a la aa) (tdot_opB G R true b ab rb) la' (seq (length la) (length aa)) (seq 0 (length ab)) rb'.
+Proof. exact tensordot_branch_independent. Qed.
+
+(* Hence with the block-by-block strategy the result never depends on the size
+   test: it is the abelian contraction of A' (ket-bra signs on a) and B'. *)
+Theorem C03_tensordot_blockwise_value :
+  forall (G : Symmetry) (R : Ring), NegLaws R ->
+  (forall a b : C G, ceqb G a b = true <-> a = b) ->
+  forall (a b : farray G R) (axes : nat + (list Z * list Z)) (aa ab : list nat),
+  parse_axes (ndim G R (fbase G R a)) (ndim G R (fbase G R b)) axes = Some (aa, ab) ->
+  NoDup (fsectors G R a) -> sectors_len G R a -> NoDup (fsectors G R b) -> sectors_len G R b ->
+  NoDup aa -> (forall i, In i aa -> i < ndim G R (fbase G R a)) ->
+  NoDup ab -> (forall i, In i ab -> i < ndim G R (fbase G R b)) ->
+  opposite_dirs G R a b aa ab ->
+  let na := ndim G R (fbase G R a) in
+  let nb := ndim G R (fbase G R b) in
+  let la := rest_axes na aa in
+  let rb := rest_axes nb ab in
+  let ncon := length aa in
+  f_tensordot G R a b axes MBlockwise
+  = fermi_finish G R a b
+      (Some (tdot_blockwise G R (tdot_opA G R true a la aa) (tdot_opB G R false b ab rb)
+               (rest_axes na (seq (na - ncon) ncon)) (seq (na - ncon) ncon)
+               (seq 0 ncon) (rest_axes nb (seq 0 ncon)))).
+Proof. exact tensordot_blockwise_value. Qed.
+
+(* Element for element (with C02's dense-contraction theorem): in (charge,
+   offset) coordinates the result is
+     (-1)^minus * sum over the contracted coordinates kc of
+        (-1)^(sigma_a) a[cl, kc] * (-1)^(sigma_b) b[kc, cr]
+   sigma_a = odd-odd inversions of (free ++ contracted) xor #odd ket-then-bra
+   contracted positions, sigma_b = odd-odd inversions of (rev contracted ++ free),
+   minus / labels from `resolve_oddpos` on the operands' odd-position lists.
+   The full statement quantifies over all three modes. *)
+Definition C03_tensordot_element_full : Prop :=
+  forall (G : Symmetry) (R : Ring), NegLaws R ->
+  (forall a b : C G, ceqb G a b = true <-> a = b) -> SumLaws R ->
+  forall (mode : tmode) (a b : farray G R) (axes : nat + (list Z * list Z)) (aa ab : list nat) (minus : bool) (odd : list fop),
+  let na := ndim G R (fbase G R a) in
+  let nb := ndim G R (fbase G R b) in
+  let cixs := take_axes (dflt_index G) (indices G R (fbase G R a)) aa in
+  parse_axes na nb axes = Some (aa, ab) ->
+  blocks_ok G R (fbase G R a) -> blocks_ok G R (fbase G R b) ->
+  NoDup aa -> (forall i, In i aa -> i < na) -> NoDup ab -> (forall i, In i ab -> i < nb) ->
+  opposite_dirs G R a b aa ab ->
+  Forall (fun ix => NoDup (icharges G ix)) cixs ->
+  map (chargemap G) cixs = map (chargemap G) (take_axes (dflt_index G) (indices G R (fbase G R b)) ab) ->
+  resolve_oddpos (fparity G R a) (foddpos G R a) (foddpos G R b) = Some (minus, odd) ->
+  exists y, f_tensordot G R a b axes mode = Some y /\ foddpos G R y = odd /\
+    forall cl cr,
+      coords_ok G (without_axes (indices G R (fbase G R a)) aa) cl = true ->
+      coords_ok G (without_axes (indices G R (fbase G R b)) ab) cr = true ->
+      sem G R (f_value G R y) (cl ++ cr)
+      = rsgn R minus (rsum R (map (fun kc =>
+          rmul R (rsgn R (sigma_a G R a aa (map fst (merge G na aa cl kc))) (sem G R (f_value G R a) (merge G na aa cl kc)))
+                 (rsgn R (sigma_b G R b ab (map fst (merge G nb ab cr kc))) (sem G R (f_value G R b) (merge G nb ab cr kc))))
+          (all_coords G cixs))).
+
+(* PROVED for mode = MBlockwise.  Missing for MFused / MAuto: that the fused
+   abelian strategy `tdot_fused` agrees element for element with
+   `tdot_blockwise` (property C06); with that equality the statement for the
+   other modes follows from C03_tensordot_sign_formula, which covers all modes. *)
+Theorem C03_tensordot_element_partial :
+  forall (G : Symmetry) (R : Ring), NegLaws R ->
+  (forall a b : C G, ceqb G a b = true <-> a = b) -> SumLaws R ->
+  forall (a b : farray G R) (axes : nat + (list Z * list Z)) (aa ab : list nat) (minus : bool) (odd : list fop),
+  let na := ndim G R (fbase G R a) in
+  let nb := ndim G R (fbase G R b) in
+  let cixs := take_axes (dflt_index G) (indices G R (fbase G R a)) aa in
+  parse_axes na nb axes = Some (aa, ab) ->
+  blocks_ok G R (fbase G R a) -> blocks_ok G R (fbase G R b) ->
+  NoDup aa -> (forall i, In i aa -> i < na) -> NoDup ab -> (forall i, In i ab -> i < nb) ->
+  opposite_dirs G R a b aa ab ->
+  Forall (fun ix => NoDup (icharges G ix)) cixs ->
+  map (chargemap G) cixs = map (chargemap G) (take_axes (dflt_index G) (indices G R (fbase G R b)) ab) ->
+  resolve_oddpos (fparity G R a) (foddpos G R a) (foddpos G R b) = Some (minus, odd) ->
+  exists y, f_tensordot G R a b axes MBlockwise = Some y /\ foddpos G R y = odd /\
+    forall cl cr,
+      coords_ok G (without_axes (indices G R (fbase G R a)) aa) cl = true ->
+      coords_ok G (without_axes (indices G R (fbase G R b)) ab) cr = true ->
+      sem G R (f_value G R y) (cl ++ cr)
+      = rsgn R minus (rsum R (map (fun kc =>
+          rmul R (rsgn R (sigma_a G R a aa (map fst (merge G na aa cl kc))) (sem G R (f_value G R a) (merge G na aa cl kc)))
+                 (rsgn R (sigma_b G R b ab (map fst (merge G nb ab cr kc))) (sem G R (f_value G R b) (merge G nb ab cr kc))))
+          (all_coords G cixs))).
+Proof. exact tensordot_blockwise_element. Qed.
+
+(* `wf_array` operands satisfy `blocks_ok` (C02). *)
+Theorem C03_wf_blocks_ok :
+  forall (G : Symmetry) (R : Ring), (forall a b : C G, ceqb G a b = true <-> a = b) ->
+  forall x : aarray G R, wf_array G R x = true -> blocks_ok G R x.
+Proof. exact wf_blocks_ok. Qed.
+
+(* ---- 4. special cases ---- *)
+(* a @ b : the abelian product of value(a) with b, b's first leg sign-flipped on
+   odd charges exactly when it is dual (a's last leg is then a ket). *)
+Theorem C03_matmul_value :
+  forall (G : Symmetry) (R : Ring) (a b : farray G R),
+  f_matmul G R a b = fermi_finish G R a b (a_matmul G R (f_value G R a) (matmul_opB G R b)).
+Proof. exact matmul_value. Qed.
+
+Theorem C03_matmul_opB_block :
+  forall (G : Symmetry) (R : Ring), NegLaws R ->
+  (forall a b : C G, ceqb G a b = true <-> a = b) ->
+  forall (b : farray G R) (s : list (C G)), NoDup (fsectors G R b) ->
+  lookup (list_eqb (ceqb G)) s (blocks G R (matmul_opB G R b))
+  = osgn R (idual G (nth 0 (indices G R (fbase G R b)) (dflt_index G)) && odd_at G s 0) (vblock G R b s).
+Proof. exact matmul_opB_block. Qed.
+
+(* trace of a (bra, ket) matrix: the plain trace of the value *)
+Theorem C03_trace_value_braket :
+  forall (G : Symmetry) (R : Ring) (x : farray G R) (il ir : index G),
+  indices G R (fbase G R x) = [il; ir] -> idual G il = true -> idual G ir = false ->
+  f_trace G R x = a_trace G R (f_value G R x).
+Proof. exact trace_value_braket. Qed.
+
+(* trace of a (ket, bra) matrix: each diagonal block enters with (-1)^{parity of its charge} *)
+Theorem C03_trace_value_ketbra :
+  forall (G : Symmetry) (R : Ring), NegLaws R ->
+  (forall a b : C G, ceqb G a b = true <-> a = b) ->
+  forall (x : farray G R) (il ir : index G),
+  indices G R (fbase G R x) = [il; ir] -> idual G il = false -> idual G ir = true ->
+  NoDup (fsectors G R x) ->
+  f_trace G R x
+  = Some (fold_left (fun acc sb =>
+            if ceqb G (nth 0 (fst sb) (ident G)) (nth 1 (fst sb) (ident G))
+            then radd R acc (rsgn R (odd_at G (fst sb) 0) (ttrace R (snd sb))) else acc)
+          (blocks G R (f_value G R x)) (r0 R)).
+Proof. exact trace_value_ketbra. Qed.
+
+(* single-array einsum: graded transposition by the sorting permutation, then
+   the abelian einsum *)
+Theorem C03_einsum_value :
+  forall (G : Symmetry) (R : Ring), NegLaws R ->
+  (forall a b : C G, ceqb G a b = true <-> a = b) ->
+  forall (x : farray G R) (lhs rhs : list nat),
+  NoDup (fsectors G R x) -> sectors_len G R x ->
+  let perm := einsum_perm G R x lhs rhs in
+  Permutation perm (seq 0 (ndim G R (fbase G R x))) /\
+  f_einsum G R x lhs rhs
+  = a_einsum G R (signed_transpose G R (f_value G R x) perm (fun s => inv_parity (par_of G s) (map Z.of_nat perm)))
+      (map (fun i => nth i lhs 0) perm) rhs.
+Proof. exact einsum_value. Qed.
+
+Print Assumptions C03_phase_perm_is_koszul.
+Print Assumptions C03_phase_perm_none_is_reversal.
+Print Assumptions C03_inv_parity_is_K.
+Print Assumptions C03_inv_parity_comp.
+Print Assumptions C03_ZRing_neg_laws.
+Print Assumptions C03_GRing_neg_laws.
+Print Assumptions C03_transpose_sectors.
+Print Assumptions C03_transpose_value.
+Print Assumptions C03_transpose_nophase_value.
+Print Assumptions C03_phase_flip_value.
+Print Assumptions C03_phase_transpose_value.
+Print Assumptions C03_tensordot_sign_formula.
+Print Assumptions C03_tdot_opA_block.
+Print Assumptions C03_tdot_opB_block.
+Print Assumptions C03_tensordot_branch_independent.
+Print Assumptions C03_tensordot_blockwise_value.
+Print Assumptions C03_tensordot_element_partial.
+Print Assumptions C03_wf_blocks_ok.
+Print Assumptions C03_matmul_value.
+Print Assumptions C03_matmul_opB_block.
+Print Assumptions C03_trace_value_braket.
+Print Assumptions C03_trace_value_ketbra.
+Print Assumptions C03_einsum_value.
